@@ -283,6 +283,45 @@ theorem C20_catalog_roundtrip_verdict :
     simp only [hv1, hp, true_and, if_true] at hx
     exact absurd hx (by decide)
 
+/-! ## The tree as it is now (after `fix:` 7a8cb52, `re.fullmatch`): the full statements
+
+These three are the `fullmatch` branches of the verdicts, stated unconditionally. They stop compiling
+(on purpose) if the validator goes back to `re.match` / `re.search`: the check then reports the broken
+proof together with the concrete failing names it finds on the real code. -/
+
+theorem anchor_is_fullmatch : Generated.catalogNameAnchorKind = 1 := by decide
+
+/-- **name_valid.** `DataCatalog(name=s)` is accepted iff `s` is non-empty and consists of letters,
+digits, hyphens and underscores only — for all strings. -/
+theorem C20_name_valid : C20_name_valid_full := by
+  have h := C20_name_valid_verdict
+  rw [if_pos anchor_is_fullmatch] at h
+  exact h
+
+/-- **entry_iso, all accepted names.** Different (catalog, entry) pairs never share a location, for
+every pair of catalog names the validator accepts (SHA-256 collision-free). -/
+theorem C20_entry_iso_all : C20_entry_iso_full := by
+  have h := C20_entry_iso_verdict
+  rw [if_pos anchor_is_fullmatch] at h
+  exact h
+
+/-- **catalog_roundtrip, unrestricted.** In every history whatsoever, a load through an accepted
+`(cat, e)` returns the last value saved through exactly that pair. -/
+theorem C20_catalog_roundtrip_all : C20_catalog_roundtrip_full := by
+  have h := C20_catalog_roundtrip_verdict
+  rw [if_pos anchor_is_fullmatch] at h
+  exact h
+
+/-- The former F5 witnesses `a/b`, `a b`, `a/../b`, `a\n` are rejected. -/
+theorem C20_f5_witnesses_rejected :
+    validName witSlash = false ∧ validName witSpace = false ∧ validName witDots = false ∧
+    validName witNewline = false := by
+  have hr : ∀ s, ¬ FullyValid s → validName s = false := fun s hs => by
+    cases hv : validName s with
+    | false => rfl
+    | true => exact absurd ((C20_name_valid s).1 hv) hs
+  exact ⟨hr _ (by decide), hr _ (by decide), hr _ (by decide), hr _ (by decide)⟩
+
 /-! ## Non-vacuity: the hypotheses are satisfiable on concrete, non-trivial data -/
 
 /-- `data-1` / `data_2` -/
